@@ -1,7 +1,333 @@
-//! C04 — not built yet.
-use crate::report::Tier;
+//! C04 — Serializable transactions admit only serializable outcomes.
+//!
+//! Same history machinery as C03 (shared file c03_hist.rs) with record_read and
+//! IsolationLevel::Serializable. Two independent oracles over every run:
+//!  (i)  per-commit rule from the statement: a Serializable T that also writes must be refused
+//!       with a SerializationFailure if an overlapping transaction that committed first wrote
+//!       something T read; read-only and non-overlapping transactions are never refused
+//!       (second sentence read literally); write-write rule as in C03;
+//!  (ii) the direct serialization graph of the committed transactions (ww by commit order, wr
+//!       from the last committed writer at T's start, rw from "read, then overwritten by a
+//!       transaction that committed after T's start") must be acyclic whenever every transaction
+//!       of the history ran Serializable; a cycle is printed as the witness.
+//! Every history is run with gc stripped / as generated / after every operation (+ a single gc
+//! at every position in the exhaustive and shape families).
 
-pub fn run(_tier: Tier, _seed: u64) -> ! {
-    println!("INCONCLUSIVE property=C04 reason=monitor not built yet");
-    std::process::exit(2)
+#[path = "c03_hist.rs"]
+mod hist;
+
+use crate::report::{Report, Tier};
+use crate::rng::Rng;
+use grafeo_engine::GrafeoDB;
+use grafeo_engine::transaction::IsolationLevel;
+use hist::{Acc, Lvl, Op, Opts, RandCfg};
+
+const P: &str = "c04";
+
+fn relabel(prog: &[Op], t: u8, l: Lvl) -> Vec<Op> {
+    prog.iter()
+        .map(|o| match *o {
+            Op::Begin(_, _) => Op::Begin(t, l),
+            Op::Write(_, e) => Op::Write(t, e),
+            Op::Read(_, e) => Op::Read(t, e),
+            Op::Commit(_) => Op::Commit(t),
+            Op::Abort(_) => Op::Abort(t),
+            Op::Gc => Op::Gc,
+        })
+        .collect()
+}
+
+fn permutations(n: usize) -> Vec<Vec<usize>> {
+    fn rec(n: usize, cur: &mut Vec<usize>, out: &mut Vec<Vec<usize>>) {
+        if cur.len() == n {
+            out.push(cur.clone());
+            return;
+        }
+        for i in 0..n {
+            if !cur.contains(&i) {
+                cur.push(i);
+                rec(n, cur, out);
+                cur.pop();
+            }
+        }
+    }
+    let mut out = Vec::new();
+    rec(n, &mut Vec::new(), &mut out);
+    out
+}
+
+fn level_tuples(n: usize) -> Vec<Vec<Lvl>> {
+    let mut out = vec![vec![]];
+    for _ in 0..n {
+        let mut next = Vec::new();
+        for v in &out {
+            for l in [Lvl::Rc, Lvl::Si, Lvl::Ser] {
+                let mut w = v.clone();
+                w.push(l);
+                next.push(w);
+            }
+        }
+        out = next;
+    }
+    out
+}
+
+/// Named anomaly shapes: every assignment of the programs to transaction labels, every
+/// interleaving (operation level), every combination of levels, three entity maps.
+fn shape_matrix(acc: &mut Acc, seed: u64, thin_three: u64) {
+    let shapes: Vec<(&'static str, Vec<Vec<Op>>, u8)> = vec![
+        ("write_skew", hist::shape_write_skew([Lvl::Ser; 2]), 2),
+        ("lost_update", hist::shape_lost_update([Lvl::Ser; 2]), 1),
+        ("three_cycle", hist::shape_three_cycle([Lvl::Ser; 3]), 3),
+        ("read_only_anomaly", {
+            use Op::*;
+            vec![
+                vec![Begin(0, Lvl::Ser), Read(0, 0), Read(0, 1), Write(0, 0), Commit(0)],
+                vec![Begin(1, Lvl::Ser), Read(1, 1), Write(1, 1), Commit(1)],
+                vec![Begin(2, Lvl::Ser), Read(2, 0), Read(2, 1), Commit(2)],
+            ]
+        }, 2),
+        ("readonly_vs_writer", {
+            use Op::*;
+            vec![vec![Begin(0, Lvl::Ser), Read(0, 0), Commit(0)], vec![Begin(1, Lvl::Ser), Write(1, 0), Commit(1)]]
+        }, 1),
+    ];
+    let mut jobs: Vec<(&'static str, Vec<Vec<Op>>, u8, Vec<Lvl>, u64)> = Vec::new();
+    for (name, progs, nent) in &shapes {
+        let n = progs.len();
+        let fam: &'static str = match *name {
+            "write_skew" => "shape.write_skew",
+            "lost_update" => "shape.lost_update",
+            "three_cycle" => "shape.three_cycle",
+            "read_only_anomaly" => "shape.read_only_anomaly",
+            _ => "shape.readonly_vs_writer",
+        };
+        for perm in permutations(n) {
+            for levels in level_tuples(n) {
+                let relabelled: Vec<Vec<Op>> = (0..n).map(|t| relabel(&progs[perm[t]], t as u8, levels[t])).collect();
+                let id = jobs.len() as u64;
+                jobs.push((fam, relabelled, *nent, levels, id));
+            }
+        }
+    }
+    acc.merge(hist::parallel(hist::n_workers(), |w, nw, acc| {
+        for (fam, relabelled, nent, levels, id) in jobs.iter().filter(|j| j.4 as usize % nw == w) {
+            let n = relabelled.len();
+            let all_ser = levels.iter().all(|l| *l == Lvl::Ser);
+            let mut case: u64 = 0;
+            hist::interleavings(relabelled, &mut |h| {
+                case += 1;
+                // three-transaction shapes have tens of thousands of interleavings per
+                // (assignment, levels): thin the mixed-level ones, keep all-Serializable complete
+                if n == 3 && !all_ser && thin_three > 1 {
+                    let mut r = Rng::new(seed, "C04.shape.thin", id << 32 | case);
+                    if r.below(thin_three as usize) != 0 {
+                        return;
+                    }
+                }
+                let o = Opts { emap: (case % hist::N_EMAPS as u64) as usize, abort_on_refusal: case % 4 != 0, poke_finished: false };
+                hist::check_history(P, h, o, *nent, all_ser, fam, n == 2, acc);
+            });
+        }
+    }));
+    // directed cells: a Serializable transaction whose read was overwritten by an overlapping
+    // committer AND whose write target was last written by a transaction that committed before
+    // it began (must be refused as serialization failure), with and without a pinning reader
+    {
+        use Op::*;
+        for pin in [false, true] {
+            for la in [Lvl::Rc, Lvl::Si, Lvl::Ser] {
+                let mut h = Vec::new();
+                if pin {
+                    h.push(Begin(3, Lvl::Si));
+                }
+                h.extend([Begin(0, la), Write(0, 0), Commit(0), Begin(1, Lvl::Ser), Read(1, 1), Write(1, 0), Begin(2, la), Write(2, 1), Commit(2), Commit(1)]);
+                if pin {
+                    h.push(Commit(3));
+                }
+                for emap in 0..hist::N_EMAPS {
+                    hist::check_history(P, &h, Opts { emap, abort_on_refusal: true, poke_finished: false }, 2, false, "directed.rw_overlap_plus_earlier_writer", true, acc);
+                }
+            }
+        }
+    }
+    // the published order of the read-only anomaly, all level combinations, with gc sweep
+    for levels in level_tuples(3) {
+        let h = hist::shape_read_only_anomaly([levels[0], levels[1], levels[2]]);
+        let all_ser = levels.iter().all(|l| *l == Lvl::Ser);
+        for emap in 0..hist::N_EMAPS {
+            hist::check_history(P, &h, Opts { emap, abort_on_refusal: true, poke_finished: true }, 2, all_ser, "shape.read_only_anomaly.published_order", true, acc);
+        }
+    }
+}
+
+/// Exhaustive: `ntx` transactions x `nent` entities x per entity {none, r, w, r+w}.
+/// `blocks`: accesses of a transaction stay contiguous (begin | accesses | end) — otherwise every
+/// operation-level interleaving. Ends: all commit, plus each single transaction aborting.
+/// Levels: all Serializable (DSG checked) and one pseudo-random mix per history.
+fn exhaustive_rw(seed: u64, ntx: usize, nent: u8, blocks: bool, sweep: bool, keep_one_in: u64, family: &'static str) -> Acc {
+    let ncodes = 1usize << (2 * nent);
+    let combos = ncodes.pow(ntx as u32) * (ntx + 1);
+    hist::parallel(hist::n_workers(), |w, nw, acc| {
+        for combo in (0..combos).filter(|c| c % nw == w) {
+            let mut c = combo;
+            let aborter = c % (ntx + 1); // == ntx: nobody aborts
+            c /= ntx + 1;
+            let mut progs: Vec<Vec<Op>> = Vec::new();
+            for t in 0..ntx {
+                progs.push(hist::rw_program(t as u8, Lvl::Ser, nent, (c % ncodes) as u32, t != aborter));
+                c /= ncodes;
+            }
+            let mut idx: u64 = 0;
+            let mut buf: Vec<Op> = Vec::new();
+            let mut visit = |h: &[Op]| {
+                idx += 1;
+                let key = (combo as u64) << 24 | idx;
+                let mut r = Rng::new(seed, "C04.exh", key);
+                if keep_one_in > 1 && r.below(keep_one_in as usize) != 0 {
+                    return;
+                }
+                let emap = r.below(hist::N_EMAPS);
+                let abort_on_refusal = r.below(4) != 0;
+                // all Serializable
+                hist::check_history(P, h, Opts { emap, abort_on_refusal, poke_finished: false }, nent, true, family, sweep, acc);
+                // one mix of levels (not all Serializable)
+                let mut lv: Vec<Lvl> = (0..ntx).map(|_| Lvl::from_index(r.below(3))).collect();
+                if lv.iter().all(|l| *l == Lvl::Ser) {
+                    lv[r.below(ntx)] = if r.chance(0.5) { Lvl::Si } else { Lvl::Rc };
+                }
+                buf.clear();
+                buf.extend(h.iter().map(|o| match *o {
+                    Op::Begin(t, _) => Op::Begin(t, lv[t as usize]),
+                    x => x,
+                }));
+                hist::check_history(P, &buf, Opts { emap, abort_on_refusal, poke_finished: false }, nent, false, family, sweep, acc);
+            };
+            if blocks {
+                let bp: Vec<Vec<Vec<Op>>> = progs.iter().map(|p| hist::as_blocks(p)).collect();
+                hist::interleavings_blocks(&bp, &mut visit);
+            } else {
+                hist::interleavings(&progs, &mut visit);
+            }
+        }
+    })
+}
+
+fn random_rw(seed: u64, n: u64) -> Acc {
+    hist::parallel(hist::n_workers(), |w, nw, acc| {
+        for case in (0..n).filter(|c| (*c as usize) % nw == w) {
+            let mut r = Rng::new(seed, "C04.rand", case);
+            let (mut h, ntx, nent, family) = match r.below(5) {
+                0 | 1 => {
+                    let cfg = RandCfg {
+                        ntx: 2 + r.below(5),
+                        nent: 1 + r.below(4) as u8,
+                        reads: true,
+                        p_reader: [0.0, 0.2, 0.4][r.below(3)],
+                        p_gc: [0.0, 0.1, 0.3][r.below(3)],
+                        level: if r.chance(0.5) { Some(Lvl::Ser) } else { None },
+                    };
+                    (hist::random_history(&mut r, cfg), cfg.ntx, cfg.nent, "random")
+                }
+                k => {
+                    // a named shape in a random interleaving, then mutated
+                    let all_ser = r.chance(0.6);
+                    let lv = |r: &mut Rng| if all_ser { Lvl::Ser } else { Lvl::from_index(r.below(3)) };
+                    let (progs, nent): (Vec<Vec<Op>>, u8) = match k {
+                        2 => (hist::shape_write_skew([lv(&mut r), lv(&mut r)]), 2),
+                        3 => (hist::shape_lost_update([lv(&mut r), lv(&mut r)]), 1),
+                        _ => {
+                            if r.chance(0.5) {
+                                (hist::shape_three_cycle([lv(&mut r), lv(&mut r), lv(&mut r)]), 3)
+                            } else {
+                                (vec![hist::shape_read_only_anomaly([lv(&mut r), lv(&mut r), lv(&mut r)])], 2)
+                            }
+                        }
+                    };
+                    // random merge preserving program order
+                    let mut at = vec![0usize; progs.len()];
+                    let mut h = Vec::new();
+                    loop {
+                        let live: Vec<usize> = (0..progs.len()).filter(|i| at[*i] < progs[*i].len()).collect();
+                        if live.is_empty() {
+                            break;
+                        }
+                        let i = *r.pick(&live);
+                        h.push(progs[i][at[i]]);
+                        at[i] += 1;
+                    }
+                    let ntx = 3 + r.below(2);
+                    let nent = nent.max(1 + r.below(3) as u8);
+                    let rounds = r.below(3);
+                    for _ in 0..rounds {
+                        hist::mutate(&mut r, &mut h, ntx, nent);
+                    }
+                    (h, ntx, nent, "shape_mutation")
+                }
+            };
+            if r.chance(0.15) {
+                hist::mutate(&mut r, &mut h, ntx, nent);
+            }
+            let o = Opts { emap: r.below(hist::N_EMAPS), abort_on_refusal: r.chance(0.6), poke_finished: r.chance(0.3) };
+            let all_ser = hist::all_serializable(&h);
+            hist::check_history(P, &h, o, nent, all_ser, family, false, acc);
+            acc.count(if all_ser { "histories.all_serializable" } else { "histories.mixed_levels" }, 1);
+        }
+    })
+}
+
+/// Session level: what is observable of begin_tx_with_isolation through the public API.
+fn session_plumbing(rep: &mut Report) {
+    let db = GrafeoDB::new_in_memory();
+    for level in [IsolationLevel::ReadCommitted, IsolationLevel::SnapshotIsolation, IsolationLevel::Serializable] {
+        let mut s = db.session();
+        rep.eval();
+        let r = s.begin_tx_with_isolation(level);
+        if r.is_err() || !s.in_transaction() {
+            rep.deviation("c04:session|begin_tx_with_isolation_failed", serde_json::json!({"level": format!("{level:?}"), "result": format!("{r:?}")}));
+        }
+        // a second begin on the same session must be rejected, whatever the level
+        if s.begin_tx_with_isolation(level).is_ok() {
+            rep.deviation("c04:session|nested_begin_accepted", serde_json::json!({"level": format!("{level:?}")}));
+        }
+        if s.commit().is_err() {
+            rep.deviation("c04:session|empty_tx_commit_refused", serde_json::json!({"level": format!("{level:?}")}));
+        }
+        rep.count("session.begin_tx_with_isolation_calls", 1);
+    }
+    rep.count("session.level_observable_through_public_api", 0);
+}
+
+pub fn run(tier: Tier, seed: u64) -> ! {
+    let mut rep = Report::new("C04", tier, seed, "exploration");
+    rep.rule = "histories of begin(level)/record_read/record_write/commit/abort/gc on TransactionManager, each run with gc stripped / as generated / after every operation (shape and exhaustive families additionally with one gc at every position); oracle (i) per-commit rule, oracle (ii) acyclic DSG for all-Serializable histories. Families: named shapes (write skew, lost update, three-cycle, read-only anomaly, read-only vs writer) in every label assignment x every operation interleaving x every level combination; exhaustive <=3 tx x 2 entities x {none,r,w,rw} per entity (2 tx at operation granularity, 3 tx with each transaction's accesses contiguous), all-commit and each single abort, all-Serializable plus one level mix each; random 2-6 tx x 1-4 entities and mutated shapes. non-trivial = some commit is asked while an overlapping earlier-committed transaction wrote an entity the committer wrote or read".into();
+
+    let mut acc = Acc::default();
+    shape_matrix(&mut acc, seed, tier.pick(40, 1));
+    acc.merge(exhaustive_rw(seed, 1, 2, false, true, 1, "exhaustive.1tx_2ent_rw"));
+    acc.merge(exhaustive_rw(seed, 2, 1, false, true, 1, "exhaustive.2tx_1ent_rw.op_level"));
+    acc.merge(exhaustive_rw(seed, 2, 2, true, true, 1, "exhaustive.2tx_2ent_rw.blocks"));
+    acc.merge(exhaustive_rw(seed, 3, 1, true, true, 1, "exhaustive.3tx_1ent_rw.blocks"));
+    match tier {
+        Tier::Quick => {
+            acc.merge(exhaustive_rw(seed, 2, 2, false, false, 1, "exhaustive.2tx_2ent_rw.op_level"));
+            acc.merge(exhaustive_rw(seed, 3, 2, true, false, 12, "exhaustive.3tx_2ent_rw.blocks.sampled"));
+        }
+        Tier::Thorough => {
+            acc.merge(exhaustive_rw(seed, 2, 2, false, true, 1, "exhaustive.2tx_2ent_rw.op_level"));
+            acc.merge(exhaustive_rw(seed, 3, 2, true, true, 1, "exhaustive.3tx_2ent_rw.blocks"));
+        }
+    }
+    acc.merge(random_rw(seed, tier.pick(600_000, 12_000_000)));
+    acc.into_report(&mut rep);
+    session_plumbing(&mut rep);
+
+    rep.assumptions = vec![
+        "reads are abstract record_read calls and are taken to observe the snapshot at the transaction's start (what the engine's Serializable level is documented to validate)".into(),
+        "the acyclicity demand applies only to histories in which every transaction ran Serializable; the per-commit rule applies to every Serializable transaction in any mix".into(),
+        "second sentence of the statement read literally: a read-only transaction is never refused, also when an overlapping committed transaction overwrote what it read".into(),
+        "when both a write-write and a read-write reason apply, either error kind is accepted".into(),
+        "session level: the TransactionManager behind GrafeoDB/Session is not reachable through the public API and no operator registers reads, so only the call contract of begin_tx_with_isolation is checked; whether the level reaches the manager is NOT observable (counter session.level_observable_through_public_api = 0)".into(),
+    ];
+    rep.finish()
 }
